@@ -294,6 +294,8 @@ func sourceCall(v ssa.Value) ssa.Instruction {
 
 func c05(r *Run) {
 	w := r.W
+	// "the failing action is reverted" rests on the transaction's rollback on every action error (decided under C03)
+	defer r.importRules(c03, "C03.R3")
 	r.rule("C05.R1", "K1", "scope check with the required permission precedes every access in GetValue/Insert/Remove; create path additionally Allocate; failure returns ErrInvalidKeyOrPermission before any store", 8)
 	r.rule("C05.R2", "K3", "unscoped helpers getValue/isUnchanged are called only from the scope-checked operations", 2)
 	r.rule("C05.R3", "K10", "permission lattice constants", 6)
